@@ -39,6 +39,10 @@ var condForms = []condForm{
 	{name: "not", cond: "!done(c, n)", step: "n++"},
 	{name: "paren", cond: "(src.More())", par: "src", arg: "pickSrc(c)"},
 	{name: "generic", cond: "below[int](c, n, 2)", step: "n++"},
+	{name: "namedbool", cond: "fl", step: "n++; fl = n < 2"},
+	{name: "namedboolcall", cond: "flagOf(c, n)", step: "n++"},
+	// a user iterator variable advanced by the condition and re-pointed by the body
+	{name: "iternext", cond: "it.MoveNext()", step: "c.X(7, it.Current()); if n == 0 { it = condSrc(c, 5) }; n++"},
 }
 
 var condPositions = []string{"plain", "first", "only", "afterif", "afteryield", "loopfirst", "looponly", "incase", "afterloop", "inblock"}
@@ -116,6 +120,18 @@ func pickPB(c *rt.Ctx) *bool {
 	return &b
 }
 
+type Flag bool
+
+func flagOf(c *rt.Ctx, n int) Flag { c.X(75, n); return n < 2 }
+
+func condSrc(c *rt.Ctx, k int) Iter[int] {
+	c.X(76, k)
+	Yield(k)
+	c.X(77, k)
+	Yield(k + 1)
+	return nil
+}
+
 func done(c *rt.Ctx, n int) bool { c.X(73, n); return n >= 2 }
 
 func below[T int | int64](c *rt.Ctx, n, lim T) bool { c.X(74, n); return n < lim }
@@ -126,7 +142,7 @@ func condText(id string, cf condForm, pos, loop string) string {
 	w := func(ind int, f string, a ...any) {
 		sb.WriteString(strings.Repeat("\t", ind) + fmt.Sprintf(f, a...) + "\n")
 	}
-	w(0, "func %s_gen(c *rt.Ctx, n int, more func() bool, src moreI, cp *counter, cv vcounter, h *condHolder, flags []bool, m map[int]bool, pb *bool) Iter[int] {", id)
+	w(0, "func %s_gen(c *rt.Ctx, n int, more func() bool, src moreI, cp *counter, cv vcounter, h *condHolder, flags []bool, m map[int]bool, pb *bool, fl Flag, it Iter[int]) Iter[int] {", id)
 	emitLoop := func(ind int) {
 		step := cf.step
 		switch loop {
@@ -211,7 +227,7 @@ func condText(id string, cf condForm, pos, loop string) string {
 	}
 	w(0, "func %s(c *rt.Ctx) {", id)
 	w(1, "c.E(8)")
-	w(1, "g := %s_gen(c, 0, %s, %s, %s, vcounter{c: c}, %s, []bool{true, true}, map[int]bool{0: true, 1: true}, %s)", id, args["more"], args["src"], args["cp"], args["h"], args["pb"])
+	w(1, "g := %s_gen(c, 0, %s, %s, %s, vcounter{c: c}, %s, []bool{true, true}, map[int]bool{0: true, 1: true}, %s, true, condSrc(c, 1))", id, args["more"], args["src"], args["cp"], args["h"], args["pb"])
 	w(1, "c.E(9)")
 	w(1, "for v := range g {")
 	w(2, "c.X(90, v)")
